@@ -183,6 +183,13 @@ func stressTemplates(thorough bool) []hostileInput {
 		add(fmt.Sprintf("binding-value-%d", i), gb+" var<storage, read_write> q: array<u32, 4>;\n@compute @workgroup_size(1) fn main() { q[0] = 1u; }")
 	}
 	// semantic
+	// arity / component-type mistakes that used to crash the lowerer (F127, F128)
+	add("vector-of-vector", "alias FVec3 = vec3<f32>;\n"+entry("let d = FVec3(vec2<FVec3>(0.0), 0.0); let m = mat2x2<FVec3>(); o[0] = u32(d.x);"))
+	add("matrix-of-struct", "struct S { a: f32 }\n"+entry("let m = mat2x2<S>(); let v = vec3<S>();"))
+	for i, call := range []string{"textureSample(&o, 1.5)", "textureSample(o)", "textureSampleLevel(o, o)", "textureLoad(o)", "textureStore(o)", "textureDimensions()", "textureGather(1)", "textureSampleCompare(o, o)", "textureSampleGrad(o, o, o)", "textureNumLayers()", "atomicAdd()", "atomicStore(&o)", "select(1)", "bitcast<u32>()", "arrayLength()", "workgroupUniformLoad()", "dot()", "clamp(1)", "mix()", "vec4<f32>(1.0, 2.0, 3.0, 4.0, 5.0)", "array<u32, 2>(1u, 2u, 3u)"} {
+		add(fmt.Sprintf("call-arity-%d", i), entry("let zz = "+call+";"))
+		add(fmt.Sprintf("call-arity-stmt-%d", i), entry(call+";"))
+	}
 	add("recursive-struct", "struct S { a: S }\nvar<private> p: S;\n"+entry(""))
 	add("mutual-struct", "struct A { b: B }\nstruct B { a: A }\nvar<private> p: A;\n"+entry(""))
 	add("recursive-alias", "alias A = array<A, 2>;\nvar<private> p: A;\n"+entry(""))
